@@ -64,6 +64,37 @@ def f_decorators_shared_class_state():
     # two decorated functions sharing one class-level dict: the second one returns the first one's cached value
     return _dbl(4), _tpl(4), _tpl(5), _dbl(5), _plus(1), _plus(1, b=5), _WithDecoratedMethod().get(2)
 
+def f_iterators():
+    l = [1, 2, 3, 4, 5]
+    it = iter(l)
+    a = next(it)
+    first_even = next((x for x in it if x % 2 == 0), None)
+    rest = list(it)
+    it2 = iter(l)
+    pairs = list(zip(it2, it2))
+    it3 = iter(range(10))
+    for x in it3:
+        if x == 3:
+            break
+    after = next(it3)
+    g = (y * y for y in range(5))
+    h = next(g), next(g)
+    tail = sum(g)
+    anyit = iter([0, 1, 0, 5])
+    found = any(anyit)
+    left = list(anyit)
+    stack = [(0, iter([10, 20]))]
+    out = []
+    while stack:
+        k, pend = stack[-1]
+        r = next((z for z in pend if z > 5), None)
+        if r is None:
+            stack.pop(); out.append(('done', k)); continue
+        out.append(r)
+        if r == 10:
+            stack.append((1, iter([30])))
+    return a, first_even, rest, pairs, after, h, tail, found, left, out, next(iter([]), 'dflt')
+
 def f_divmod():
     q, r = divmod(1023, 8)
     return q, r, divmod(-7, 2)
